@@ -33,14 +33,19 @@ pub fn documents(thorough: bool) -> Vec<Doc> {
 		docs.push(Doc { v: V::map(vec![("s", V::Str("x".repeat(len)))]), family: "sized", common: true });
 	}
 	// documents that straddle libyaml / BufReader buffer sizes with multi-byte characters around them
-	for pad in [8185usize, 8190, 8191, 8192, 16379, 16380, 16381, 16382, 16383, 16384, 24570, 24575] {
+	// A run of 40 identical multi-byte characters placed across each multiple of 8 KiB, in all
+	// alignments, so that the boundary falls inside a character whatever the few header bytes
+	// of the format add.
+	for boundary in [8192usize, 16384, 24576, 32768] {
 		for ch in ["é", "€", "😀"] {
-			let mut s = "p".repeat(pad);
-			for _ in 0..6 {
-				s.push_str(ch);
+			for align in 0..ch.len() {
+				let mut s = "p".repeat(boundary - 60 + align);
+				for _ in 0..40 {
+					s.push_str(ch);
+				}
+				s.push_str(&"q".repeat(20000));
+				docs.push(Doc { v: V::map(vec![("k", V::Str(s))]), family: "buffer-straddle", common: true });
 			}
-			s.push_str(&"q".repeat(20000));
-			docs.push(Doc { v: V::map(vec![("k", V::Str(s))]), family: "buffer-straddle", common: true });
 		}
 	}
 	// extensions outside the common model
